@@ -66,7 +66,12 @@ def seek_danger_typestate(rep, prog, R):
                      "its doc()/score() are not meaningful in that state, the enclosing iterator reports documents or scores that depend on how the document was reached"
                      % (fid, show(v["path"]), v["callee"], show(v["used_as"])), site=site(body, v["block"]))
     rep.floor(R, "functions probing a sub-docset with seek_danger", len(fids), 8)
-    rep.floor(R, "seek_danger probe sites on sub-docsets", nprobe, 12)
+    # the floor counts call sites (17 confirmed by reading), not resolved receiver paths: a probe that moves into the
+    # closure of an iterator adaptor (`others.iter_mut().map(|d| d.seek_danger(t))`) is still a probe
+    nsites = len([1 for b, bi, t in prog.who_calls({PROBE}) if b.id in prog.bodies and "::tests::" not in b.id
+                  and not b.id.startswith("tantivy::docset::DocSet::seek_danger")])
+    rep.floor(R, "seek_danger probe call sites", nsites, 17)
+    rep.floor(R, "seek_danger probe sites resolved to a sub-docset path", nprobe, 9)
 
 
 def _docset_methods(prog, ty):
